@@ -60,7 +60,7 @@ def _register_extras():
 # flight identifiers - as themselves ("small") or as neighbours around a 19-digit composite key ("wide":
 # date + serial, consecutive integers that no float64 can tell apart).  Set per behaviour by run_behaviour.
 WIDE_BASE = 2026011500000000000
-_idr = {'wide': False, 'zero': False, 'nan': False}
+_idr = {'wide': False, 'zero': False, 'nan': False, 'signed': 0}
 
 
 def cid(k: int) -> int:
@@ -68,6 +68,9 @@ def cid(k: int) -> int:
     - the flight identifier 0 is an identifier like any other)"""
     if _idr['zero'] and k:
         return int(k) - 1
+    if _idr.get('signed') and k:
+        # rendering "signed": 1, 2, 3 ... are -1, 0, 1 ... - an int64 identifier may be negative
+        return int(k) - int(_idr['signed'])
     return (WIDE_BASE + int(k)) if (_idr['wide'] and k) else int(k)
 
 
@@ -76,6 +79,8 @@ def aid(c: int) -> int:
     c = int(c)
     if _idr['zero']:
         return c + 1
+    if _idr.get('signed'):
+        return c + int(_idr['signed'])
     return c - WIDE_BASE if (_idr['wide'] and 0 < c - WIDE_BASE < 100000) else c
 
 
@@ -253,7 +258,10 @@ class StoreRunner:
                     # realisable where the store's trajectories carry vf_extras; elsewhere it is the plain mismatch
                     t = make_payload(9, 99 if has_ids else 0, self.big, extras='alt' if self.extras else True)
                 elif arg == 'id_inconsistent':
-                    t = make_payload(9, 0 if self.spec_indexable else 99, self.big, extras=self.extras)
+                    # (an identified trajectory offered to an unidentified store: with the identifier 0 where the
+                    # rendering of the behaviour has one - 0 is an identifier, not the absence of one)
+                    zero_id = 1 if _idr['zero'] else 2 if _idr.get('signed') else 99
+                    t = make_payload(9, 0 if self.spec_indexable else zero_id, self.big, extras=self.extras)
                 else:
                     raise MachineryError(f'unknown reject kind {arg}')
                 ts.add(t)
@@ -309,6 +317,7 @@ def run_behaviour(beh: dict, big=False, cache_mb=None, skip_bad=False, want=None
     warnings.simplefilter('ignore')
     _idr['wide'] = beh.get('idr') == 'wide'
     _idr['zero'] = beh.get('idr') == 'zero_based'
+    _idr['signed'] = 2 if beh.get('idr') == 'signed' else 0
     _idr['nan'] = beh.get('payload') == 'nan_scalar'
     r = StoreRunner(big=big, cache_mb=cache_mb)
     r.entry = beh.get('entry', 'factory')
@@ -356,7 +365,9 @@ def run_behaviour(beh: dict, big=False, cache_mb=None, skip_bad=False, want=None
                 # and at the same time a violation of C07's (length, order)
                 refused_add = _ev['op'] == 'add' and _ev['ok'] == 'no'
                 return {
-                    **({'also': 'C07'} if refused_add else {}),
+                    # (an inconsistent-identifier addition that is not refused: C08's "fully identified or not at all"
+                    # and C10's "an addition the store rejects leaves the store as it was")
+                    **({'also': 'C07'} if refused_add else {'also': 'C10'} if (_ev['op'] == 'addbad' and _ev['arg'] == 'id_inconsistent') else {}),
                     'prop': 'C10' if refused_add else classify(_ev['op'], _ev['arg'], has_bad, ids_in_play, _internal),
                     'step': _si,
                     'op': _ev['op'],
